@@ -2,7 +2,7 @@
 
 # ------------------------------------------------------------------ DTC (bit-vector arithmetic)
 
-@unit("j1939.diagnostic_messages:DTC.__init__", variant="fields", arith="bv", width=48, props=["C16"])
+@unit("j1939.diagnostic_messages:DTC.__init__", variant="fields", arith="bv", replay="native", width=48, props=["C16"])
 def _(self: "DTC", dtc: "none", spn: "int", fmi: "int", oc: "int"):
     requires(0 <= spn < 2**19, 0 <= fmi < 32, 0 <= oc < 128)
     ensures("C16.dtc.pack", self._dtc == dtc_pack(spn, fmi, oc), 0 <= self._dtc < 2**31,
@@ -13,7 +13,7 @@ def _(self: "DTC", dtc: "none", spn: "int", fmi: "int", oc: "int"):
     ensures("C16.dtc.octets", forall(lambda b: le_octet(self._dtc, b) == dtc_octet(spn, fmi, oc, b), 0, 4))
 
 
-@unit("j1939.diagnostic_messages:DTC.__init__", variant="value", arith="bv", width=48, props=["C16"])
+@unit("j1939.diagnostic_messages:DTC.__init__", variant="value", arith="bv", replay="native", width=48, props=["C16"])
 def _(self: "DTC", dtc: "int", spn: "none", fmi: "none", oc: "int"):
     requires(0 <= dtc < 2**32)
     ensures("C16.dtc.unpack", self._dtc == dtc, self._spn == dtc_spn(dtc), self._fmi == dtc_fmi(dtc), self._oc == dtc_oc(dtc),
